@@ -55,6 +55,7 @@ def structures(tier):
     for q in (0, 1, 2, 3):
         sts.append({'kind': 'listing', 'q': q})
     sts.append({'kind': 'decode'})
+    sts.append({'kind': 'decode-string'})
     sts.append({'kind': 'decode-sequence'})
     sts.append({'kind': 'decode-sequence', 'same_parser': True})
     sts.append({'kind': 'decode-sequence', 'same_parser': True, 'first': 'bundled'})
@@ -85,6 +86,8 @@ def _chars(ctx, name, n, cls):
 
 
 def run(ctx, st):
+    if st['kind'] == 'decode-string':
+        return run_decode_string(ctx, st)
     return {'text': run_text, 'listing': run_listing, 'decode': run_decode, 'decode-sequence': run_decode_sequence,
             'text-representatives': run_representatives, 'decode-same-name': run_same_name}[st['kind']](ctx, st)
 
@@ -261,10 +264,12 @@ def _name_eq(ctx, got, want):
     return got == bytes(want).decode('ascii')
 
 
-def _table(ctx):
+def _table(ctx, aligned=True):
+    """aligned=False: the table's ids are free 32-bit values, also ones with qualifier bits set (they name no event)"""
     ks = [ctx.int('k%d' % i, 32) for i in range(3)]
     for i in range(3):
-        ctx.assume((ks[i] & 3) == 0)
+        if aligned:
+            ctx.assume((ks[i] & 3) == 0)
         for j in range(i):
             ctx.assume(ks[i] != ks[j])
     names = ['BSC_getpid', 'VFS_LOOKUP', 'some_undecoded_name']
@@ -287,7 +292,7 @@ def _parser(ctx):
 
 
 def run_listing(ctx, st):
-    ks, names, t = _table(ctx)
+    ks, names, t = _table(ctx, aligned=False)
     e = ctx.int('e', 32)
     ctx.assume((e & 3) == 0)
     rec = K.pack_rec(1001, [1, 2, 3, 4], 0x1d3, e | st['q'])
@@ -316,6 +321,36 @@ def run_listing(ctx, st):
                 ctx.check('C19/listing/name-of-the-supplied-table', s == '%s (%s)' % (names[hit[0]], hex(e)), s)
             else:
                 ctx.check('C19/listing/bare-hex-for-absent-id', s == hex(e), s)
+    ctx.reach()
+
+
+def run_decode_string(ctx, st):
+    """the table gives a kernel trace-string name to a free id: records under that id are paired and decoded as that
+    string record, and an unrelated record of the thread in between is not part of the string"""
+    k, u = ctx.int('k', 32), ctx.int('u', 32)
+    ctx.assume(And((k & 3) == 0, (u & 3) == 0, k != u))
+    ta, tb = ctx.bytes('ta', 3), ctx.bytes('tb', 3)
+    for t_ in (ta, tb):
+        for i in range(3):
+            ctx.assume(And(t_[i] != 0, t_[i] < 0x80))
+    if ctx.symbolic:
+        t = SymMap(name='codes')
+        t._set(k, 'TRACE_STRING_THREADNAME')
+    else:
+        t = {k: 'TRACE_STRING_THREADNAME'}
+    recs = [K.pack_rec_data(1001, ta + bytes(29), 0x1d3, k | 1), K.pack_rec(1002, [0x41424344, 2, 3, 4], 0x1d3, u),
+            K.pack_rec_data(1003, tb + bytes(29), 0x1d3, k | 2)]
+    try:
+        out = list(_parser(ctx).traces(make_stream(K.v2_file([], 0, recs)), t))
+    except Exception as ex:     # noqa
+        __import__('vxlib.symx.core', fromlist=['x']).proxy_rejected(ex)
+        ctx.check('C19/decode-string/no-error', False, '%s: %s' % (type(ex).__name__, ex)); ctx.reach(); return
+    L = 'C19/decode-string'
+    ctx.check(L + '/decoded-under-the-table-id', len(out) == 1 and type(out[0]).__name__ == 'TraceStringThreadname', '%d traces' % len(out))
+    if len(out) == 1 and type(out[0]).__name__ == 'TraceStringThreadname':
+        from vxlib.checks import c08
+        ctx.check(L + '/string-is-its-own-records', c08._same_text(ctx, out[0].name, list(ta.items if hasattr(ta, 'items') else ta) + list(tb.items if hasattr(tb, 'items') else tb)),
+                  'the name is not the text of the two records under the table id')
     ctx.reach()
 
 
